@@ -39,9 +39,25 @@ def make_run(seed, i):
     shared_nested = rng.random() < 0.35
     fixed = dict(structures=["nested"], p_nested=0.5, p_list_obj=0.25, n_shapes=rng.randint(3, 5), depth=3,
                  p_variant=0.0, n_models=1, p_missing=0.0, width=rng.randint(2, 4)) if shared_nested else {}
+    # bias: some runs give several threads the SAME document (models compare equal across registries) with option
+    # variations inside one framework family (different max_literals / converters) - the state in which shared
+    # mutable class-level or process-level data would be overwritten by a neighbour
+    same_doc = n >= 2 and rng.random() < 0.3
     for t in range(n):
-        w = gen_workload(seeds.derive(seed, PROP, i, "thread", t), **fixed)
-        specs.append({"models": w["models"], "options": w["options"]})
+        w = gen_workload(seeds.derive(seed, PROP, i, "thread", 0 if same_doc else t), **fixed)
+        o = dict(w["options"])
+        if same_doc and t:
+            vr = seeds.derive(seed, PROP, i, "variation", t)
+            o["max_literals"] = vr.choice([0, 1, 2, 3, 10, 15, 20])
+            if vr.random() < 0.4:
+                fam = {"base": ["base", "dataclasses"], "dataclasses": ["base", "dataclasses"],
+                       "pydantic": ["pydantic", "sqlmodel"], "sqlmodel": ["pydantic", "sqlmodel"], "attrs": ["attrs"]}
+                o["framework"] = vr.choice(fam[o["framework"]])
+            if vr.random() < 0.3:
+                o["convert_unicode"] = not o["convert_unicode"]
+            if vr.random() < 0.3:
+                o["structure"] = vr.choice(["flat", "nested"])
+        specs.append({"models": w["models"], "options": o})
     srng = seeds.derive(seed, PROP, i, "schedule")
     sched = {"seed": srng.getrandbits(48), "mean_gap": srng.choice([2, 3, 10, 30, 100, 300, 1000, 3000]),
              "p_target": srng.choice([0.0, 0.2, 0.5])}
@@ -126,7 +142,18 @@ def minimise(pool, run, res, refs, bad):
             return False
         return bool(mismatches(rr, oo["outcomes"]))
 
-    switches = shrink.ddmin(sched0["switches"], test, budget)
+    # a failure is usually decided by the first few switches: binary-search the shortest failing prefix, then ddmin
+    sw = sched0["switches"]
+    lo, hi = 0, len(sw)
+    while lo < hi and budget.take():
+        mid = (lo + hi) // 2
+        if test(sw[:mid]):
+            hi = mid
+        else:
+            lo = mid + 1
+    if hi < len(sw) and not (budget.take() and test(sw[:hi])):
+        hi = len(sw)
+    switches = shrink.ddmin(sw[:hi], test, shrink.Budget(min(budget.left, 120)))
     rp = {"first": sched0["first"], "switches": switches, "handoffs": sched0["handoffs"]}
     rr, oo = evaluate(pool, run, replay=rp)
     bad2 = mismatches(rr, oo["outcomes"])
